@@ -1,7 +1,11 @@
 mod c02;
 mod c03;
 mod c04;
+mod c05;
+mod c06;
 mod c08;
+mod c09;
+mod c10;
 mod c11;
 mod c13;
 mod c17;
@@ -9,6 +13,7 @@ mod c20;
 mod common;
 mod probe;
 mod progs;
+mod structspace;
 mod wgpucheck;
 
 fn main() {
@@ -43,7 +48,11 @@ fn main() {
         "C02" => c02::run(tier),
         "C03" => c03::run(tier),
         "C04" => c04::run(tier),
+        "C05" => c05::run(tier),
+        "C06" => c06::run(tier),
         "C08" => c08::run(tier),
+        "C09" => c09::run(tier),
+        "C10" => c10::run(tier),
         "C11" => c11::run(tier),
         "C13" => c13::run(tier),
         "C17" => c17::run(tier),
